@@ -204,15 +204,16 @@ def h_fchk_aufbau(ctx, norb=2, twin=False, kind="unrestricted"):
         occa = ctx.real_array("oa", (norb,), lo=0, hi=1)
         occb = ctx.real_array("ob", (norb,), lo=0, hi=1)
         mo0 = kw["mo"]
+        co = np.hstack([np.asarray(mo0.coeffs, dtype=float)] * norb)[:, :norb]
         if kind == "unrestricted":
             kw["mo"] = O.MolecularOrbitals("unrestricted", norb, norb, np.concatenate([occa, occb]) if ctx.mode == "conc"
                                            else np.array(list(occa) + list(occb), dtype=object),
-                                           np.hstack([mo0.coeffs[:, :norb], mo0.coeffs[:, :norb]]), None, None)
+                                           np.hstack([co, co]), None, None)
         else:
             # restricted orbitals whose alpha/beta occupations are given through occs and occs_aminusb
             tot = occa + occb
             dif = occa - occb
-            kw["mo"] = O.MolecularOrbitals("restricted", norb, norb, tot, mo0.coeffs[:, :norb], None, None,
+            kw["mo"] = O.MolecularOrbitals("restricted", norb, norb, tot, co, None, None,
                                            dif if kind == "restricted-aminusb" else None)
             if kind == "restricted":
                 # without occs_aminusb the documented heuristic defines alpha/beta: use the class's own accessors
